@@ -3,13 +3,14 @@
 For each seeded/<name>: (1) locate a failing condition cheaply with tools/find_witness.py (plain enumeration of the
 bounded parameters), (2) run the property's real check restricted to that condition (CrossHair) and record whether it
 reports a reproduced VIOLATION.  Writes seeded/<name>/result.json and prints one line per seed."""
-import json, os, subprocess, sys, time
+import json, os, re, subprocess, sys, time
 ROOT = os.path.dirname(os.path.dirname(os.path.abspath(__file__)))
 PY = os.path.join(ROOT, ".venv/bin/python")
 PROPS_FOR = {  # reverted repairs: property whose check is expected to see it
  "R01": "C17", "R02": "C17", "R03": "C02", "R04": "C02", "R05": "C02", "R06": "C01", "R07": "C02", "R08": "C01", "R09": "C14",
  "R10": "C13", "R11": "C11", "R12": "C11", "R13": "C10", "R14": "C15", "R15": "C08", "R16": "C09", "R17": "C17", "R18": "C11",
  "R19": "C09", "R20": "C09", "R21": "C03", "R22": "C03"}
+EXTRA = {}
 names = sys.argv[1:] or sorted(os.listdir(os.path.join(ROOT, "seeded")))
 for name in names:
     d = os.path.join(ROOT, "seeded", name)
@@ -24,36 +25,48 @@ for name in names:
         if subprocess.call(["git", "apply", os.path.join(d, "patch.diff")], cwd=wt) != 0:
             res["status"] = "patch does not apply"
         else:
-            env = dict(os.environ, VERIF_REPO=wt)
-            cond = None
-            for tier in ("quick", "thorough"):
-                env["VERIF_TIER"] = tier
+            for prop_try in [prop] + EXTRA.get(name, []) + (["C18"] if prop != "C18" else []):
+                env = dict(os.environ, VERIF_REPO=wt)
+                cond = None
+                for tier in ("quick", "thorough"):
+                    env["VERIF_TIER"] = tier
+                    out = subprocess.run([PY, os.path.join(ROOT, "tools/find_witness.py"), prop_try, "", "300000"], env=env,
+                                         capture_output=True, text=True, timeout=3600).stdout.strip().split("\n")[-1]
+                    try:
+                        rec = json.loads(out)
+                    except Exception:
+                        rec = {"error": out[-300:]}
+                    if "cond" in rec:
+                        cond, res["tier"], res["witness"] = rec["cond"], tier, rec
+                        break
                 t0 = time.time()
-                out = subprocess.run([PY, os.path.join(ROOT, "tools/find_witness.py"), prop, "", "400000"], env=env, capture_output=True,
-                                     text=True, timeout=3600).stdout.strip().split("\n")[-1]
-                try:
-                    rec = json.loads(out)
-                except Exception:
-                    rec = {"error": out[-300:]}
-                if "cond" in rec:
-                    cond, res["tier"], res["witness"] = rec["cond"], tier, rec
-                    break
-            if cond is None:
-                res["status"] = "MISSED (no failing input inside the bounds of either tier)"
-            else:
-                t0 = time.time()
-                p = subprocess.run([os.path.join(ROOT, "vcheck"), prop, "--tier", res["tier"], "--only", cond], env=env, cwd=ROOT,
-                                   capture_output=True, text=True, timeout=7200)
+                if cond is None:
+                    # plain enumeration found nothing (it uses one value per unbounded parameter and few strings):
+                    # let the solver look -- the whole quick check of the property
+                    res["tier"] = "quick"
+                    cmd = [os.path.join(ROOT, "vcheck"), prop_try, "--tier", "quick"]
+                else:
+                    cmd = [os.path.join(ROOT, "vcheck"), prop_try, "--tier", res["tier"], "--only", cond]
+                p = subprocess.run(cmd, env=env, cwd=ROOT, capture_output=True, text=True, timeout=7200)
                 res["vcheck_exit"] = p.returncode
                 res["vcheck_wall_s"] = round(time.time() - t0, 1)
                 v = [l for l in p.stdout.split("\n") if l.startswith("VIOLATION")]
                 r = [l for l in p.stdout.split("\n") if l.startswith("replay: property")]
                 res["violations"] = len(v)
                 res["first_replay"] = r[0][:400] if r else ""
-                res["status"] = "CAUGHT" if p.returncode == 1 and v else "NOT REPORTED (exit %d)" % p.returncode
-                res["cond"] = cond
+                res["cond"] = cond or "(whole quick check)"
+                res["property"] = prop_try
+                if p.returncode == 1 and v:
+                    res["status"] = "CAUGHT"
+                    if r:
+                        mo = re.search(r"cond=(\S+)", r[0])
+                        if mo and cond is None:
+                            res["cond"] = mo.group(1)
+                    break
+                res["status"] = "MISSED (exit %d, %s)" % (p.returncode, "; ".join(l for l in p.stdout.split("\n") if l.startswith(("INCONCLUSIVE", "HARNESS")))[:200])
+                subprocess.call("rm -rf %s/build/%s-alt*" % (ROOT, prop_try), shell=True)
     finally:
         subprocess.call(["git", "-C", "/repo", "worktree", "remove", "--force", wt])
-        subprocess.call("rm -rf %s/build/%s-alt*" % (ROOT, prop), shell=True)
+        subprocess.call("rm -rf %s/build/*-alt*" % ROOT, shell=True)
     json.dump(res, open(os.path.join(d, "result.json"), "w"), indent=1)
     print(name, prop, res.get("status"), res.get("tier", ""), res.get("cond", ""), res.get("vcheck_wall_s", ""), flush=True)
